@@ -14,6 +14,7 @@ Open Scope Z_scope.
 Definition K_NONE : Z := 255.
 Definition K_Z : Z := 0. Definition K_B : Z := 1. Definition K_D : Z := 2. Definition K_S : Z := 3.
 Definition K_P : Z := 4. Definition K_M : Z := 5. Definition K_V : Z := 6.
+Definition K_L : Z := 7. Definition K_R : Z := 8. Definition K_C : Z := 9.   (* CnvPVecL, CnvPVecR, the &[i64] constant *)
 
 (* kinds of (res, a, b) per opcode; same table as op_info in c17.rs *)
 Definition op_kinds (opc : Z) : option (Z * Z * Z) :=
@@ -41,6 +42,11 @@ Definition op_kinds (opc : Z) : option (Z * Z * Z) :=
   else if opc =? 70 then Some (v, m, x)
   else if opc =? 71 then Some (d, d, v)
   else if opc =? 72 then Some (d, z, v)
+  else if opc =? 80 then Some (K_L, z, x)
+  else if opc =? 81 then Some (K_R, z, x)
+  else if (opc =? 82) || (opc =? 83) then Some (d, K_L, K_R)
+  else if opc =? 84 then Some (b, z, K_C)
+  else if opc =? 85 then Some (K_L, K_R, z)
   else if (90 <=? opc) && (opc <=? 93) then Some (z, z, x)   (* core level: GLWE / plaintext operands carved by take_glwe* *)
   else None.
 
@@ -51,7 +57,7 @@ Definition kind_of (ks : Z * Z * Z) (o : Z) : Z :=
 Definition w_of (kind be : Z) : Z :=
   let ntt := 3 <=? be in
   if kind =? K_B then (if ntt then 16 else 8)
-  else if (kind =? K_D) || (kind =? K_P) || (kind =? K_V) then (if ntt then 32 else 8)
+  else if (kind =? K_D) || (kind =? K_P) || (kind =? K_V) || (kind =? K_L) || (kind =? K_R) then (if ntt then 32 else 8)
   else 8.
 
 Definition p (ps : list Z) (i : nat) : Z := nth i ps 0.
@@ -202,7 +208,7 @@ Definition run_c17 (code : Z) (ps : list Z) (vs : list (list Z)) : option (list 
       | Some m => Some [[if wf_mb m && InvMb m then 0 else 3; 1; 0; 1]; mat_list m]
       end
     else
-    match hist_hdr (kind =? K_Z) ((kind =? K_Z) || (kind =? K_S) || (kind =? K_B) || (kind =? K_D) || (kind =? K_P))
+    match hist_hdr (kind =? K_Z) ((kind =? K_Z) || (kind =? K_S) || (kind =? K_B) || (kind =? K_D) || (kind =? K_P) || (kind =? K_L) || (kind =? K_R))
                    ((kind =? K_Z) || (kind =? K_S)) n cols size w words hist hp1 hp2 with
     | HBad => None
     | HRejected v => Some [[2; 1; 0; 1]; hdr_list v]
